@@ -8,7 +8,7 @@ from .common import (COMPONENTS, EngineCrash, Monitor, Stuck, Violation, World, 
 from sim.play import cards_str, where_of
 from sim.snapshot import snapshot, diff, derived
 
-from pokerkit import Card, Mode
+from pokerkit import Automation, Card, Mode
 
 ID = 'C08'
 LEVEL = 'fault_enumeration'
@@ -138,7 +138,9 @@ def requests(world):
             variants.append((cards_str(over), 'cards_over'))
         if in_play:
             variants.append((cards_str(some(in_play, 1)), 'in_play'))
-        if pend and not pend[0]:
+        if pend and not pend[0] and Automation.HOLE_CARDS_SHOWING_OR_MUCKING not in st.automations:
+            # scope bound: an unknown down card only where nothing has to read it - with automated showing the
+            # cascade following the last deal would have to table the unknown card
             variants.append(('??', 'unknown_down'))
         for v, lab in variants:
             if i is None:
